@@ -165,47 +165,78 @@ theorem random_number_inline_v2 (min max step : Int) (k : Nat) (x : Int) (hs : 1
   obtain ⟨_, h1, h2, h3⟩ := random_number_lattice min max step k x hs h
   exact ⟨v, hv, hx, h1, h2, h3⟩
 
-/-- Literal YAML ints, keyword arguments inside a formula and every v3 recipe hand the integers
-    over unchanged. -/
-theorem random_number_via_native (min max step : Int) (k : Nat) :
-    randomNumberVia .native min max step k = .out (randomNumber min max step k) := rfl
+/-- The object seen for a written integer always converts back to that integer: it is the `int`
+    itself, or (default dialect, `0` and negatives) its decimal text. -/
+theorem coerce_argSeen (mode : ArgMode) (x : Int) :
+    coerceArg .strToInt (argSeen mode x) = .ok x := by
+  cases mode with
+  | native => rfl
+  | formulaV2 =>
+    unfold argSeen
+    rcases Proofs.C11Render.renderV2_cases x with ⟨_, h⟩ | ⟨_, h⟩
+    · simp only [h]; rfl
+    · simp only [h, coerceArg]
+      have : (L2.intToStr x).toInt? = some x := by
+        have := Proofs.C11Render.valAsInt_str_intToStr x
+        simpa [valAsInt] using this
+      rw [this]
 
-theorem argSeen_formula (x : Int) :
-    argSeen .formulaV2 x = if 0 < x then some x else none := by
-  unfold argSeen
-  rcases Proofs.C11Render.renderV2_cases x with ⟨h0, h⟩ | ⟨h0, h⟩
-  · simp [h, h0]
-  · have : ¬ 0 < x := by omega
-    simp [h, this]
+/-- **Arguments as a recipe writes them — full strength** (refuted before 6be3bcb — D54).  For every
+    `(min, max, step)` — zero, negative and arbitrarily large values included — and both ways the
+    arguments can reach the function (native ints: literal YAML, keyword arguments, the v3 dialect;
+    or formula-valued arguments of the default dialect, re-rendered through `look_for_number`),
+    `random_number` behaves exactly as on the written integers: all the lattice, bounds, attainability
+    and error theorems above apply verbatim. -/
+theorem random_number_formula_args (mode : ArgMode) (min max step : Int) (k : Nat) :
+    randomNumberVia mode min max step k = .out (randomNumber min max step k) := by
+  simp only [randomNumberVia, randomNumberViaWith, randomNumberObj, codeArgConv, coerce_argSeen]
 
-/-- **Formula-valued arguments (`min: ${{…}}`) — partial.** Positive arguments of any size reach the
-    function unchanged: bounds and lattice are those of the written integers. -/
-theorem random_number_formula_args_partial (min max step : Int) (k : Nat)
-    (h1 : 0 < min) (h2 : 0 < max) (h3 : 0 < step) :
-    randomNumberVia .formulaV2 min max step k = .out (randomNumber min max step k) := by
-  simp [randomNumberVia, argSeen_formula, h1, h2, h3]
+/-- In particular the D54 input `min: ${{0 - 5}}`, `max: ${{0 - 3}}` draws from `-5 … -3`. -/
+theorem random_number_formula_args_lattice (mode : ArgMode) (min max step : Int) (k : Nat) (x : Int)
+    (hs : 1 ≤ step) (h : randomNumberVia mode min max step k = .out (.value x)) :
+    x = min + step * k ∧ min ≤ x ∧ x ≤ max ∧ step ∣ (x - min) := by
+  rw [random_number_formula_args] at h
+  injection h with h
+  exact random_number_lattice min max step k x hs h
 
-/-- **… refuted in general (D54).** A formula-valued argument that is `0` or negative reaches
-    `random_number` as a string and the call fails with a TypeError although the range is not
-    empty (`min: ${{0 - 5}}`, `max: ${{0 - 3}}`). -/
-theorem random_number_formula_args_refuted :
-    ∃ (min max step : Int) (k : Nat) (x : Int),
-      randomNumber min max step k = .value x ∧
-      randomNumberVia .formulaV2 min max step k = .typeError := by
-  refine ⟨-5, -3, 1, 0, -5, by decide, ?_⟩
-  simp [randomNumberVia, argSeen_formula]
+/-- **A non-numeric string argument** (`min: abc`) is a `ValueError` from `int(…)` (a recipe error
+    when it comes from a recipe), never a value. -/
+theorem random_number_nonnumeric_string (s : String) (b c : PyArg) (k : Nat) (h : s.toInt? = none) :
+    randomNumberObj codeArgConv (.str s) b c k = .valueError := by
+  simp [randomNumberObj, coerceArg, codeArgConv, h]
 
-/-- Exactly when: some argument is not positive. -/
-theorem random_number_formula_args_typeError_iff (min max step : Int) (k : Nat) :
-    randomNumberVia .formulaV2 min max step k = .typeError ↔ (min ≤ 0 ∨ max ≤ 0 ∨ step ≤ 0) := by
-  simp only [randomNumberVia, argSeen_formula]
+/-- A numeric string (`min: "12"` in the v3 dialect, where it stays a string) is converted. -/
+theorem random_number_numeric_string (s : String) (i : Int) (b c : Int) (k : Nat)
+    (h : s.toInt? = some i) :
+    randomNumberObj codeArgConv (.str s) (.int b) (.int c) k = .out (randomNumber i b c k) := by
+  simp [randomNumberObj, coerceArg, codeArgConv, h]
+
+/-- **The old behaviour (no conversion, before 6be3bcb)**, as a statement about the explicitly
+    parameterised `ArgConv.asIs`: a formula-valued argument that is `0` or negative made the call
+    fail with a TypeError, exactly then. -/
+theorem random_number_formula_args_old_typeError_iff (min max step : Int) (k : Nat) :
+    randomNumberViaWith .asIs .formulaV2 min max step k = .typeError ↔
+      (min ≤ 0 ∨ max ≤ 0 ∨ step ≤ 0) := by
+  have seen : ∀ x : Int, coerceArg .asIs (argSeen .formulaV2 x)
+      = if 0 < x then .ok x else .error .typeError := by
+    intro x
+    unfold argSeen
+    rcases Proofs.C11Render.renderV2_cases x with ⟨h0, h⟩ | ⟨h0, h⟩
+    · simp [h, h0, coerceArg]
+    · have : ¬ 0 < x := by omega
+      simp [h, this, coerceArg]
+  simp only [randomNumberViaWith, randomNumberObj, seen]
   by_cases h1 : 0 < min <;> by_cases h2 : 0 < max <;> by_cases h3 : 0 < step <;>
     simp [h1, h2, h3] <;> omega
 
 example : renderV2 9007199254740993 = .ok (.int 9007199254740993) := render_v2_pos _ (by decide)
 example : randomNumberVia .formulaV2 9007199254740993 9007199254741001 2 4
     = .out (.value 9007199254741001) := by
-  rw [random_number_formula_args_partial _ _ _ _ (by decide) (by decide) (by decide)]; decide
+  rw [random_number_formula_args]; decide
+example : randomNumberVia .formulaV2 (-5) (-3) 1 2 = .out (.value (-3)) := by
+  rw [random_number_formula_args]; decide
+-- (`"abc".toInt? = none` does not reduce in the kernel; the driver evaluates it and the harness
+-- compares `min: abc` with the real code on every run.)
 
 /-! ### `random_choice` -/
 
